@@ -28,6 +28,8 @@ def gen_queue_script(rng):
         elif k < 8:
             ops.append('e'); nW += 1
         elif k == 8:
+            if rng.random() < 0.3:
+                ops.append('n')                  # a new QueueReader object, as Session::consume creates one per poll
             ops.append('r%d' % nW)
         else:
             ops.append('d'); nR += 1
@@ -50,6 +52,8 @@ def gen_queue_script_events(rng):
                 left -= k
             ops.append('e'); nW += 1
         else:
+            if rng.random() < 0.5:
+                ops.append('n')
             ops.append('r%d' % nW)
             ops.append('d'); nR += 1
     return 'queue %d %s' % (cap, ' '.join(ops))
@@ -74,6 +78,8 @@ def monitor_queue(line, out):
         if seg == 'disabled':
             continue
         c = t[0]
+        if c == 'n':
+            continue
         if c == 'b':
             kv = parse_kv(seg)
             n = int(t[1:].split(':')[0])
